@@ -482,7 +482,7 @@ func RunAll(ck Check, cases []Case, exe string) []Result {
 	var batches []batch
 	var plain, race, a386 []Case
 	for _, c := range cases {
-		if c.Arch386 {
+		if c.Arch386 || (os.Getenv("VW_FORCE_386") != "" && !c.Race) {
 			a386 = append(a386, c)
 		} else if c.Race {
 			race = append(race, c)
